@@ -254,7 +254,7 @@ impl Engine for C14 {
     fn runs(&self, tier: Tier) -> u64 {
         match tier {
             Tier::Quick => 4_500,
-            Tier::Thorough => 400_000,
+            Tier::Thorough => 200_000,
         }
     }
     fn batch(&self) -> u64 {
